@@ -525,6 +525,8 @@ def cm_enter(cm):
 def clsref_dotted(name):
     import importlib
     mod, _, attr_ = name.rpartition('.')
+    if not mod:
+        return importlib.import_module(name)
     return getattr(importlib.import_module(mod), attr_)
 
 
